@@ -234,12 +234,15 @@ CHECKS = {
                        "absent in the context, nil context, the inherit flag, key/value pairs vs Attr values at the call site. The observed "
                        "(key,value) sequence of the logfmt record must equal the reference merge of the statement. G: the same inside a "
                        "group. L: 13..14 call-site attributes over two keys (8192+ layouts) through the real pdqsort.",
-        "bounds": {"quick": "chain depth <= 2, <= 1 own attribute per logger, <= 1 context key, <= 2 call-site attributes; groups of <= 3 members; 13 attributes over {a,b}",
-                   "thorough": "chain depth <= 3, <= 1 own attribute per logger, <= 1 context key, <= 3 call-site attributes; 13..15 attributes"},
+        "bounds": {"quick": "chain depth <= 2, <= 1 own attribute per logger, <= 1 context key, <= 2 call-site attributes; chain depth <= 4 with 0..1 own attributes per logger (every empty/non-empty pattern), no context key, <= 1 call-site attribute; groups of <= 3 members; 13 attributes over {a,b}",
+                   "thorough": "chain depth <= 3, <= 1 own attribute per logger, <= 1 context key, <= 3 call-site attributes; chain depth <= 4 with 0..2 own attributes; 13..15 attributes"},
         "outside": "attribute lists of 17..64 elements; observation through the colored format (C06 checks key order there on fixed lists)",
         "assumptions": ["values are distinct integers tagging their source; observation through logfmt and JSON loggers without caller field"],
         "runs": [
             {"harness": "VH_C07", "quick": {"chain": 2, "own": 1, "ctxkeys": 1, "site": 2, "json": 1}, "thorough": {"chain": 3, "own": 1, "ctxkeys": 1, "site": 3, "json": 1},
+             "covers": ["C07:compared"]},
+            # deep chains with empty loggers in the middle (the inherit walk must not stop at them)
+            {"harness": "VH_C07", "quick": {"chain": 4, "own": 1, "ctxkeys": 0, "site": 1, "json": 0}, "thorough": {"chain": 4, "own": 2, "ctxkeys": 0, "site": 1, "json": 1},
              "covers": ["C07:compared"]},
             {"harness": "VH_C07G", "quick": {"members": 3}, "thorough": {"members": 4}, "covers": ["C07G:compared"]},
             {"harness": "VH_C07L", "quick": {"extra": 1}, "thorough": {"extra": 3}, "covers": ["C07L:compared"]},
@@ -266,19 +269,26 @@ CHECKS = {
     "C10": {
         "explanation": "Execution by the symbolic engine of newentry, newChildLogger, New, the With*/Set* pairs (level, JSON/colour mode, UTC mode, "
                        "time format, attrs, skip, context keys, writer), ResetContextKeys, Parent/Root/Sublogger/Each and the getters. The "
-                       "solver chooses at every step a target logger among those created so far and one of 21 operations (with symbolic "
-                       "boolean / chosen level arguments); the harness keeps a model tree and asserts after every step, for every logger, "
-                       "that all settings equal the model (so an operation on one logger changed no other), that With... returned a new "
+                       "solver chooses at every step a target logger among those created so far and one of 23 operations (with symbolic "
+                       "boolean / chosen level arguments; two of them hand one prepared attribute set with spare capacity to several loggers); "
+                       "the harness keeps a model tree and asserts after every step, for every logger, "
+                       "that all settings - attributes by content (key and value of each) - equal the model (so an operation on one logger changed no other), that With... returned a new "
                        "child of the receiver (WithSkip(n): one child per n) and Set... the receiver, that New(name) twice returns the same "
                        "child; finally Each visits each node of every subtree exactly once at its depth and Sublogger agrees with the "
                        "creation history. D: the real init() under production-process stubs gives the Warn default; package-level "
-                       "SetLevel/New.",
-        "bounds": {"quick": "histories of 3 operations from one detached root", "thorough": "histories of 4 operations"},
+                       "SetLevel/New. S: a tree whose loggers were all given the same prepared attribute set, then attribute operations on any of "
+                       "them. I: the inductive step - a four-logger tree whose every logger has an arbitrary level, format state and UTC mode "
+                       "(solver variables, assigned to the fields) and one of two profiles for layout/attributes/skip/context keys/writer; "
+                       "one Set... operation on one logger; all others unchanged, the target as the operation denotes.",
+        "bounds": {"quick": "histories of 3 operations from one detached root; S: 3 attribute operations on a 4-logger tree; I: one operation from an arbitrary state of a fixed 4-logger tree",
+                   "thorough": "histories of 4 operations; S: 4 operations"},
         "outside": "random-name collisions (random names are assumed fresh); SetLevel(Debug/Trace) (process-wide side effect, C01); longer histories",
         "assumptions": ["stringtool.RandomStringPure returns fresh distinct names"],
         "runs": [
             {"harness": "VH_C10", "quick": {"steps": 3}, "thorough": {"steps": 4}, "covers": ["C10:done"]},
             {"harness": "VH_C10D", "covers": ["C10D:done"]},
+            {"harness": "VH_C10S", "quick": {"steps": 3}, "thorough": {"steps": 4}, "covers": ["C10S:done"]},
+            {"harness": "VH_C10I", "covers": ["C10I:done"]},
         ],
     },
     "C14": {
@@ -306,10 +316,14 @@ CHECKS = {
                        "nested Group, LogValuer) is handled: exactly one Write, byte-identical to WriteThru of the same time/message/"
                        "attributes at the namesake severity (logfmt and JSON). C: derived handlers keep level, destination, format and "
                        "add attributes. D: for every (logger level, bridge severity) pair and symbolic message (with/without trailing "
-                       "newline) the bridge emits one record at its severity iff the logger admits it. E: level maps for all int64 values.",
-        "bounds": {"quick": "B: message <= 1 byte, <= 1 attribute, group depth 1; D: printable messages <= 2 bytes, 7x6 level pairs",
-                   "thorough": "B: message <= 2 bytes, <= 2 attributes without nesting; D: messages <= 3 bytes"},
-        "outside": "handler option combinations of NewSlogHandler (they mutate process-wide flags); chains of more than 2 derivations",
+                       "newline) the bridge emits one record at its severity iff the logger admits it. E: level maps for all int64 values. "
+                       "F: trees of derivations - at every step the solver picks the handler to derive from and what to add (one attribute, "
+                       "a group, two attributes); afterwards every handler of the tree handles a record, which must be byte-identical to the "
+                       "native record carrying exactly the attributes of that handler's own derivation path (siblings must not disturb each "
+                       "other, whatever the slice capacities along the way).",
+        "bounds": {"quick": "B: message <= 1 byte, <= 1 attribute, group depth 1; D: printable messages <= 2 bytes, 7x6 level pairs; F: every derivation tree of 4 steps",
+                   "thorough": "B: message <= 2 bytes, <= 2 attributes without nesting; D: messages <= 3 bytes; F: every derivation tree of 5 steps"},
+        "outside": "handler option combinations of NewSlogHandler (they mutate process-wide flags); derivation trees of more than 5 steps",
         "assumptions": ["log/slog's own elision of empty groups from a Record is the standard library's behaviour"],
         "runs": [
             {"harness": "VH_C15A", "covers": ["C15A:asked"]},
@@ -317,6 +331,7 @@ CHECKS = {
             {"harness": "VH_C15C", "covers": ["C15C:handled"]},
             {"harness": "VH_C15D", "quick": {"msg": 2}, "thorough": {"msg": 3}, "covers": ["C15D:printed"]},
             {"harness": "VH_C15E", "covers": ["C15E:standard", "C15E:terminating"]},
+            {"harness": "VH_C15F", "quick": {"steps": 4, "kinds": 3}, "thorough": {"steps": 5, "kinds": 3}, "covers": ["C15F:compared"]},
         ],
     },
     "C04": {
@@ -383,9 +398,12 @@ CHECKS = {
                        "3 formats, single/multi-line message, error values, Info and WriteThru entry points; the Group's members in every "
                        "order over two keys, i.e. sorted, unsorted and duplicated) the engine's write-set monitor checks that every store, "
                        "map update, copy and in-place append executed between entry and return targets memory allocated during the call "
-                       "or an object checked out of a sync.Pool during it (sync/atomic stubs and the destinations' own writes exempt); "
+                       "or an object checked out of a sync.Pool during it (sync/atomic stubs and the destinations' own writes exempt), "
+                       "and that every object handed to sync.Pool.Put is itself owned by the call (memory reachable from the call's inputs "
+                       "must never be published to other goroutines through a pool); "
                        "and the harness compares snapshots of everything reachable from the call's inputs (loggers' attribute slices, "
-                       "the shared group's member slice, the caller's attribute slice) before and after. Reduction (argued, not checked): "
+                       "the shared group's member slice, the caller's attribute slice) before and after the call and again after a later call "
+                       "of another logger that recycles the pools. Reduction (argued, not checked): "
                        "if every call writes only memory it owns, two concurrent calls share only memory neither writes, so there is no "
                        "data race between them and each payload is built in private memory.",
         "bounds": {"quick": "groups of 1..3 members over keys {a,b}; 4 argument shapes; 2 logger shapes; 3 formats; 2 messages; 2 entry points",
